@@ -42,14 +42,18 @@ Bad == { St("badread:" \o b[1], SPrint(Idx(Id("x"), b[2]))) : b \in BadIdx }
        \cup { St("nonarray:read", SPrint(Idx(Num(5), Num(0)))), St("nonarray:len", SPrint(LenOf("q"))), St("nonarray:push", SPrint(Call(Id("push"), <<Id("q"), Num(1)>>))),
               St("push:one-arg", SPrint(Call(Id("push"), <<Id("x")>>))), St("nonarray:write", SExpr(IAsg(Id("q"), Num(0), Num(1)))) }
 
-RECURSIVE GoodSeqs(_)
-GoodSeqs(n) == IF n = 0 THEN { <<>> } ELSE { Append(h, g) : h \in GoodSeqs(n - 1), g \in Good }
-Hists == UNION { GoodSeqs(k) : k \in 0..HistLen } \cup { Append(h, b) : h \in UNION { GoodSeqs(k) : k \in 0..(HistLen - 1) }, b \in Bad }
-
+(* histories as SEQUENCES of sequences: TLC's set union on big sets of big records is quadratic *)
+Cross(A, B, F(_, _)) == FlattenSeq([i \in 1..Len(A) |-> [j \in 1..Len(B) |-> F(A[i], B[j])]])
 GoodSeq == SetToSeq(Good)
+BadSeq == SetToSeq(Bad)
+RECURSIVE GoodSeqs(_)
+GoodSeqs(n) == IF n = 0 THEN << <<>> >> ELSE LET prev == GoodSeqs(n - 1) IN Cross(prev, GoodSeq, LAMBDA h, g : Append(h, g))
+UpTo(n) == FlattenSeq([k \in 1..(n + 1) |-> GoodSeqs(k - 1)])
+Hists == UpTo(HistLen) \o Cross(UpTo(HistLen - 1), BadSeq, LAMBDA h, b : Append(h, b))
+
 RECURSIVE RHist(_, _, _)
 RHist(s, i, n) == IF n = 0 THEN <<>> ELSE <<GoodSeq[1 + RandInt(s, i, Len(GoodSeq))]>> \o RHist(s, i + 1, n - 1)
-Randoms == { RHist(SeedProp * 4096 + k, 1, RandLen) : k \in 1..NRandom }
+Randoms == [k \in 1..NRandom |-> RHist(SeedProp * 4096 + k, 1, RandLen)]
 
 Prelude == << SFun("wr", <<"a">>, <<SExpr(IAsg(Id("a"), Num(0), Fresh))>>), SVar("q", Num(7)), SFun("fresh", <<>>, <<SReturn(Arr(<<Num(7), Num(8), Num(9)>>))>>),
               SVar("x", Arr(<<Num(1), Num(2), Num(3)>>)), SVar("y", Arr(<<Num(4), Num(5)>>)), SVar("o", Obj(<<"p">>, <<Arr(<<Num(9)>>)>>)), Show >>
@@ -59,7 +63,7 @@ RECURSIVE HName(_)
 HName(h) == IF h = <<>> THEN "" ELSE h[1].nm \o ";" \o HName(Tail(h))
 ClassOf(h) == IF h = <<>> THEN "empty" ELSE IF Len(h) > HistLen THEN "random" ELSE h[Len(h)].nm   \* class = the last operation
 
-Cases == SetToSeq(Hists \cup Randoms)
+Cases == Hists \o Randoms
 Programs == [i \in 1..Len(Cases) |-> FreshProg(Prelude \o Body(Cases[i]), 1)]
 FamProgOf(i) == Programs[i]
 Init == \E i \in 1..Len(Programs) : InitSem(i, <<>>, FALSE)
